@@ -553,3 +553,105 @@ func replayObligation(P *Prog, r *FuncResult, o *Obligation) (string, bool) {
 	}
 	return rep + "\nnot reproduced with the bytes the model fixes (the rest of each slice was zero-filled)", false
 }
+
+// ---- C16: differential replay of the generated XDR code against the RFC grammar ----
+
+var xdrReplayCache = map[string][2]string{}
+
+// replayXDR runs, on the real code, the differential test that tools/xdrgen.py
+// generates from the RFC 1813 grammar for the function an obligation belongs
+// to (a codec method, a handler wrapper or a registration table): witness
+// values for every union arm and optional member are encoded and decoded by
+// the real code and compared with an independent reference encoder. A
+// mismatch is a concrete failing input.
+func replayXDR(P *Prog, r *FuncResult) (string, bool) {
+	key := r.Key
+	test := ""
+	switch {
+	case strings.HasPrefix(key, "nfstypes.(*") && strings.HasSuffix(key, ").Xdr"):
+		test = "TestZZReplayType_" + strings.TrimSuffix(strings.TrimPrefix(key, "nfstypes.(*"), ").Xdr")
+	case strings.HasPrefix(key, "nfstypes.(*") && strings.Contains(key, "_handler_wrapper)."):
+		test = "TestZZReplayWrapper_" + key[strings.LastIndex(key, ".")+1:]
+	case strings.HasPrefix(key, "nfstypes.") && strings.HasSuffix(key, "_regs"):
+		test = "TestZZReplayRegs_" + strings.TrimSuffix(strings.TrimPrefix(key, "nfstypes."), "_regs")
+	default:
+		return "", false
+	}
+	if c, ok := xdrReplayCache[test]; ok {
+		return c[0], c[1] == "1"
+	}
+	save := func(txt string, ok bool) (string, bool) {
+		f := "0"
+		if ok {
+			f = "1"
+		}
+		xdrReplayCache[test] = [2]string{txt, f}
+		return txt, ok
+	}
+	tmp, err := os.MkdirTemp("", "govc-xdrreplay")
+	if err != nil {
+		return save("", false)
+	}
+	defer os.RemoveAll(tmp)
+	testFile := filepath.Join(tmp, "zz_replay_test.go")
+	if out, err := exec.Command("python3", filepath.Join(verifDir, "tools", "xdrgen.py"), "--replay-test", testFile).CombinedOutput(); err != nil {
+		return save("replay harness could not be generated: "+string(out), false)
+	}
+	dir := filepath.Join(P.repo, "nfstypes")
+	ov, _ := json.Marshal(map[string]interface{}{"Replace": map[string]string{filepath.Join(dir, "zz_replay_test.go"): testFile}})
+	ovFile := filepath.Join(tmp, "ov.json")
+	os.WriteFile(ovFile, ov, 0o644)
+	cmd := exec.Command("go", "test", "-overlay", ovFile, "-vet=off", "-count=1", "-timeout", "60s", "-run", "^"+test+"$", "-v", ".")
+	cmd.Dir = dir
+	cmd.Env = append(os.Environ(), "GOFLAGS=-mod=mod", "GOPROXY=off", "GOSUMDB=off", "GOTOOLCHAIN=local")
+	done := make(chan struct{})
+	var out []byte
+	go func() { out, _ = cmd.CombinedOutput(); close(done) }()
+	select {
+	case <-done:
+	case <-time.After(120 * time.Second):
+		if cmd.Process != nil {
+			cmd.Process.Kill()
+		}
+		return save("replay timed out", false)
+	}
+	txt := string(out)
+	head := "differential test " + test + " generated from the RFC 1813 grammar by tools/xdrgen.py --replay-test, injected with go test -overlay (nothing is written into the repository); output:\n"
+	switch {
+	case strings.Contains(txt, "REPLAY-MISMATCH"):
+		return save(head+txt+"\nthe real code disagrees with the RFC layout on this input: CONFIRMED", true)
+	case strings.Contains(txt, "panic:"):
+		return save(head+txt+"\nthe real code panics on a witness value: CONFIRMED", true)
+	}
+	return save(head+txt+"\nnot reproduced with the witness values tried", false)
+}
+
+// replayXDRAll runs every generated differential test (thorough tier of C16).
+func replayXDRAll(P *Prog) (string, bool) {
+	tmp, err := os.MkdirTemp("", "govc-xdrreplay")
+	if err != nil {
+		return "", false
+	}
+	defer os.RemoveAll(tmp)
+	testFile := filepath.Join(tmp, "zz_replay_test.go")
+	if out, err := exec.Command("python3", filepath.Join(verifDir, "tools", "xdrgen.py"), "--replay-test", testFile).CombinedOutput(); err != nil {
+		return "replay harness could not be generated: " + string(out), true
+	}
+	dir := filepath.Join(P.repo, "nfstypes")
+	ov, _ := json.Marshal(map[string]interface{}{"Replace": map[string]string{filepath.Join(dir, "zz_replay_test.go"): testFile}})
+	ovFile := filepath.Join(tmp, "ov.json")
+	os.WriteFile(ovFile, ov, 0o644)
+	cmd := exec.Command("go", "test", "-overlay", ovFile, "-vet=off", "-count=1", "-timeout", "300s", "-run", "^TestZZReplay", "-v", ".")
+	cmd.Dir = dir
+	cmd.Env = append(os.Environ(), "GOFLAGS=-mod=mod", "GOPROXY=off", "GOSUMDB=off", "GOTOOLCHAIN=local")
+	out, _ := cmd.CombinedOutput()
+	txt := string(out)
+	var keep []string
+	for _, ln := range strings.Split(txt, "\n") {
+		if strings.Contains(ln, "REPLAY-MISMATCH") || strings.Contains(ln, "panic:") || strings.HasPrefix(ln, "FAIL") || strings.HasPrefix(ln, "  ") {
+			keep = append(keep, ln)
+		}
+	}
+	bad := strings.Contains(txt, "REPLAY-MISMATCH") || strings.Contains(txt, "panic:") || !strings.Contains(txt, "REPLAY-AGREES")
+	return "differential suite (tools/xdrgen.py --replay-test) on the real code:\n" + strings.Join(keep, "\n"), bad
+}
